@@ -59,6 +59,15 @@ Definition tol_centroid (num_scale : Q) (c : Q) (l : list pt) : Q :=
 Definition err_code (r : err + list pt) : Z :=
   match r with inl ErrType => 1 | inl ErrValue => 2 | inr _ => 0 end%Z.
 
+(* small dyadic inputs: every coordinate is k / 256 with |k| < 2^15 and there are at most 12 vertices.  Then every
+   product and partial sum of the shoelace and centroid loops is an integer multiple of 2^-24 below 2^53 in
+   magnitude, i.e. computed without rounding: the area is exact, each centroid coordinate carries the one rounding
+   of its division (relative 2^-53), the volume three roundings.  Tolerances: 0, 2^-52, 2^-51 relative. *)
+Definition small_coord (x : Q) : bool :=
+  let q := Qred (x * 256) in Pos.eqb (Qden q) 1 && (Z.abs (Qnum q) <? 32768)%Z.
+Definition small_dyadic (l : list pt) : bool :=
+  (Z.of_nat (length l) <=? 12)%Z && forallb (fun p => small_coord (px p) && small_coord (py p)) l.
+
 (* geometry of one voxel: stored vertex list (exactly), area, centroid, volume *)
 Definition check_geom (user stored : list pt) (pi a cx cy vol : Q) : Z :=
   match stored_vertices user with
@@ -68,11 +77,13 @@ Definition check_geom (user stored : list pt) (pi a cx cy vol : Q) : Z :=
     else match centroid_r l with
          | None => 1%Z
          | Some c =>
-           let ta := tol_area l in
-           let tx := tol_centroid (cyc_sum_r agx l) (px c) l in
-           let ty := tol_centroid (cyc_sum_r agy l) (py c) l in
+           let sd := small_dyadic l in
+           let ta := if sd then 0 else tol_area l in
+           let tx := if sd then pow2 (-52) * Qabs (px c) else tol_centroid (cyc_sum_r agx l) (px c) l in
+           let ty := if sd then pow2 (-52) * Qabs (py c) else tol_centroid (cyc_sum_r agy l) (py c) l in
            let v := volume_r pi l in
-           let tv := 2 * pi * (tx * area_r l + Qabs (px c) * ta) + pow2 (-50) * Qabs v in
+           let tv := if sd then pow2 (-51) * Qabs v
+                     else 2 * pi * (tx * area_r l + Qabs (px c) * ta) + pow2 (-50) * Qabs v in
            if within ta (area_r l) a && within tx (px c) cx && within ty (py c) cy && within tv v vol
            then 0%Z else 1%Z
          end
@@ -134,6 +145,49 @@ Definition check_emissivity (l : list pt) (tris : list tri) (tbl : list (Q * Q))
     if forallb2 (fun p q => within tp (px p) (px q) && within tp (py p) (py q)) model_pts points
        && within tv mv value
     then 0%Z else 1%Z.
+
+(* which CSG builder the constructor used (1 = _build_csg_from_rectangle), compared for small dyadic lists only
+   (the code compares rounded square roots, the model exact squares) *)
+Definition check_rect_path (stored : list pt) (flag : bool) : Z :=
+  if negb (small_dyadic stored) then 2%Z
+  else if Bool.eqb (has_rectangular_cross_section stored) flag then 0%Z else 1%Z.
+
+(* constructor with raw rows and primitive_type: code 0 = accepted (stored list compared exactly) *)
+Definition check_construct (rows : list (list Q)) (ptype code : Z) (stored : list pt) : Z :=
+  match construct rows ptype with
+  | inl ErrType => if (code =? 1)%Z then 0%Z else 1%Z
+  | inl ErrValue => if (code =? 2)%Z then 0%Z else 1%Z
+  | inr l => if (code =? 0)%Z && forallb2 pt_eqb l stored then 0%Z else 1%Z
+  end.
+
+(* grid_samples = 0 (code 1 = ZeroDivisionError) and < 0 (code 0, value 0, nothing drawn) *)
+Definition check_call_policy (l : list pt) (tris : list tri) (n code : Z) (value : Q) : Z :=
+  match fst (emissivity_call (fun _ => 0) (fun _ => 1) l tris n []) with
+  | None => if (code =? 1)%Z then 0%Z else 1%Z
+  | Some q => if (code =? 0)%Z && Qeq_bool q value then 0%Z else 1%Z
+  end.
+
+(* __getitem__ / set_active argument policy: 0 = accepted, 1 = TypeError, 2 = IndexError, 3 = ValueError *)
+Definition cerr_code (e : cerr) : Z := match e with CType => 1 | CIndex => 2 | CValue => 3 end%Z.
+Definition check_getitem (count : Z) (it : item) (code : Z) : Z :=
+  let m := match getitem count it with inl e => cerr_code e | inr _ => 0%Z end in if (m =? code)%Z then 0%Z else 1%Z.
+Definition check_set_active (count : Z) (it : item) (code : Z) : Z :=
+  let m := match set_active count it with Some e => cerr_code e | None => 0%Z end in if (m =? code)%Z then 0%Z else 1%Z.
+
+(* emissivities_from_function: the voxels in order on ONE flat stream of uniforms; per voxel the draws are taken
+   from the stream by the model ([take_draws]) and compared like a single call *)
+Fixpoint check_emissivities (voxels : list (list pt * list tri)) (tbl : list (Q * Q)) (n : nat) (stream : list Q)
+         (points : list (list pt)) (values : list Q) (c0 c1 c2 : Q) : Z :=
+  match voxels, points, values with
+  | [], [], [] => 0%Z
+  | (l, tris) :: vt, ps :: pt', v :: vt' =>
+    let (ds, rest) := take_draws (length tris) n stream in
+    let tb := filter (fun p => existsb (fun d => Qeq_bool (u_one d) (fst p)) ds) tbl in
+    let r := check_emissivity l tris tb ds ps c0 c1 c2 v in
+    let r' := check_emissivities vt tbl n rest pt' vt' c0 c1 c2 in
+    if (r =? 1)%Z || (r' =? 1)%Z then 1%Z else if (r =? 2)%Z || (r' =? 2)%Z then 2%Z else 0%Z
+  | _, _, _ => 1%Z
+  end.
 
 Definition codes_eq (c : Z) (l : list Z) : list Z :=
   failing (map (fun x => negb (x =? c)%Z) l).
